@@ -210,12 +210,20 @@ def wide_tails(ck, tier, seed):
                     p32 = {k: v.float() for k, v in p64.items()}
                     x64 = torch.linspace(-0.97 * B, 0.97 * B, 9, dtype=torch.float64)
                     for inverse in (False, True):
-                        a = sh.call(fam, inverse, x64.float(), p32, tail_bound=B)
-                        b = sh.call(fam, inverse, x64.float().double(), p64, tail_bound=B)
+                        if row % 2:
+                            b = sh.call(fam, inverse, x64.float().double(), p64, tail_bound=B)
+                            a = sh.call(fam, inverse, x64.float(), p32, tail_bound=B)
+                        else:
+                            a = sh.call(fam, inverse, x64.float(), p32, tail_bound=B)
+                            b = sh.call(fam, inverse, x64.float().double(), p64, tail_bound=B)
                         ck.case(("c19-wide-tails", fam, B, K, row, inverse), nontrivial=True)
                         case = {"search": "wide-tails-f32", "family": fam, "tail_bound": B, "K": K, "row": row, "inverse": inverse, "seed": seed}
                         if b[0] != "ok":
                             continue
+                        if a[0] == "ok" and (a[1][0].dtype != torch.float32 or a[1][1].dtype != torch.float32):
+                            ck.finding("precision:spline-dtype-not-preserved:%s" % fam,
+                                       "unconstrained %s spline %s on float32 inputs returns %s / %s" % (fam, "inverse" if inverse else "forward", a[1][0].dtype, a[1][1].dtype), case)
+                            break
                         if a[0] != "ok":
                             ck.finding("precision:spline-float32-raises:%s" % fam,
                                        "unconstrained %s spline, tail bound %g, %s: float32 raises %s (%s), float64 evaluates" % (fam, B, "inverse" if inverse else "forward", a[1], str(a[2])[:80]), case)
@@ -234,6 +242,33 @@ def dense_inverse(ck, tier, seed):
     """the inverse direction of the four spline functions in float32 on a dense grid of the output interval: root formulas
     that cancel lose digits only next to isolated points inside a bin, which a handful of knots never hits"""
     npts = 4001 if tier == "quick" else 40001
+    # bin counts that nothing else in this process uses, each in a fixed order of precisions (7, 11: float64 first; 9, 13: float32
+    # first), both directions, with and without tails
+    for fam in sh.FAMILIES:
+        for K, first64 in ((7, True), (11, True), (9, False), (13, False)):
+            for tails in (None, 2.0):
+                g = tgen(seed, "c19order", fam, K, tails)
+                p64 = sh.gen_params(fam, K, tails is not None, "normal", g)
+                p32 = {k: v.float() for k, v in p64.items()}
+                pts = torch.linspace(0.03, 0.97, 7, dtype=torch.float64) if tails is None else torch.linspace(-2.5, 2.5, 9, dtype=torch.float64)
+                for inverse in (True, False):
+                    kw = dict(box=sh.BOXES[0]) if tails is None else dict(tail_bound=tails)
+                    order = ("f64", "f32") if first64 else ("f32", "f64")
+                    res = {}
+                    for o_ in order:
+                        res[o_] = sh.call(fam, inverse, pts if o_ == "f64" else pts.float(), p64 if o_ == "f64" else p32, **kw)
+                    ck.case(("c19-order", fam, K, tails, inverse), nontrivial=True)
+                    case = {"search": "precision-order", "family": fam, "K": K, "tails": tails, "inverse": inverse, "first": order[0], "seed": seed}
+                    a, b = res["f32"], res["f64"]
+                    if b[0] == "ok" and a[0] != "ok":
+                        ck.finding("precision:spline-float32-raises:%s" % fam,
+                                   "%s K=%d %s (%s evaluated first in this process): float32 raises %s (%s)" % (fam, K, "inverse" if inverse else "forward", order[0], a[1], str(a[2])[:80]), case)
+                    elif a[0] == "ok" and (a[1][0].dtype != torch.float32 or a[1][1].dtype != torch.float32):
+                        ck.finding("precision:spline-dtype-not-preserved:%s" % fam,
+                                   "%s K=%d %s (%s evaluated first in this process): float32 inputs give %s / %s" % (fam, K, "inverse" if inverse else "forward", order[0], a[1][0].dtype, a[1][1].dtype), case)
+                    elif b[0] == "ok" and (b[1][0].dtype != torch.float64 or b[1][1].dtype != torch.float64):
+                        ck.finding("precision:spline-dtype-not-preserved:%s" % fam,
+                                   "%s K=%d %s (%s evaluated first in this process): float64 inputs give %s / %s" % (fam, K, "inverse" if inverse else "forward", order[0], b[1][0].dtype, b[1][1].dtype), case)
     for fam in sh.FAMILIES:
         for K in (3, 6):
             for bi, box in enumerate(sh.BOXES[:3]):
@@ -242,10 +277,22 @@ def dense_inverse(ck, tier, seed):
                 p32 = {k: v.float() for k, v in p64.items()}
                 y64 = torch.linspace(box[2], box[3], npts, dtype=torch.float64)
                 y32 = y64.float().clamp(box[2], box[3])
-                a = sh.call(fam, True, y32, p32, box=box)
-                b = sh.call(fam, True, y32.double(), p64, box=box)
+                # the two precisions in both orders within this process (float64 first for odd cases): whatever one call leaves
+                # behind (a memo, a cached table) must not leak its dtype into the next
+                if (K + bi) % 2:
+                    b = sh.call(fam, True, y32.double(), p64, box=box)
+                    a = sh.call(fam, True, y32, p32, box=box)
+                else:
+                    a = sh.call(fam, True, y32, p32, box=box)
+                    b = sh.call(fam, True, y32.double(), p64, box=box)
                 ck.case(("c19-dense-inverse", fam, K, bi), nontrivial=True)
                 case = {"search": "dense-inverse-f32", "family": fam, "K": K, "box": box, "seed": seed}
+                if a[0] == "ok" and (a[1][0].dtype != torch.float32 or a[1][1].dtype != torch.float32):
+                    ck.finding("precision:spline-dtype-not-preserved:%s" % fam, "%s inverse on float32 inputs returns %s / %s" % (fam, a[1][0].dtype, a[1][1].dtype), case)
+                    continue
+                if b[0] == "ok" and (b[1][0].dtype != torch.float64 or b[1][1].dtype != torch.float64):
+                    ck.finding("precision:spline-dtype-not-preserved:%s" % fam, "%s inverse on float64 inputs returns %s / %s" % (fam, b[1][0].dtype, b[1][1].dtype), case)
+                    continue
                 if a[0] != "ok" or b[0] != "ok":
                     if a[0] != b[0]:
                         ck.finding("precision:spline-float32-raises:%s" % fam, "%s inverse box %s: %s" % (fam, box, a[1:]), case)
